@@ -514,6 +514,63 @@ pub fn gen(seed: u64, tier: &str) -> Vec<String> {
             }
         }
     }
+    // 1b. the top of the dimension domain: one side 256 / 512 / 1024 (the PICA200 maximum), the other 8,
+    //     in an 8-bit, a 4-bit and a 32-bit format; single-texture files, all four containers
+    {
+        let tops: [(u32, u32, u32); 10] = [
+            (1024, 8, 7), (8, 1024, 7), (1024, 8, 12), (8, 1024, 12), (1024, 8, 0), (8, 1024, 0),
+            (256, 8, 13), (8, 512, 3), (512, 8, 4), (8, 256, 5),
+        ];
+        for kind in ["ctpk", "bch", "cgfx"] {
+            for (i, &(w, h, fmt)) in tops.iter().enumerate() {
+                if !thorough && i >= 6 && (i + kind.len()) % 2 == 0 {
+                    continue;
+                }
+                let len = bits_per_pixel(fmt).unwrap() * (w * h) as usize / 8;
+                let payload = if i % 3 == 0 { let st = rng.next(); sentinel_payload(&mut rng, fmt, len, st) } else { rng.bytes(len) };
+                let texs = vec![Tex { name: gen_name(&mut rng, kind == "ctpk"), w, h, fmt, payload, palette: Vec::new() }];
+                let b = build(kind, &texs, *rng.pick(&[0u8, 0x21]), &mut rng, true);
+                next(&mut lines, format!("read {} {} {}", kind, hex(&b.file), tex_fields(&texs, &b)));
+            }
+        }
+        for (w, h) in [(1024u32, 3u32), (5, 1024), (256, 4), (9, 512)] {
+            let entries = 256usize;
+            let aw = (w as usize + 7) / 8 * 8;
+            let ah = (h as usize + 3) / 4 * 4;
+            let payload: Vec<u8> = (0..aw * ah).map(|_| rng.below(entries as u64) as u8).collect();
+            let texs = vec![Tex { name: String::new(), w, h, fmt: 9, payload, palette: rng.bytes(entries * 2) }];
+            let b = build_tpl(&texs, &mut rng, true);
+            next(&mut lines, format!("read tpl {} {}", hex(&b.file), tex_fields(&texs, &b)));
+        }
+        // beyond the domain (no claim; model and code must agree): sides 2048 / 4096 with a full payload,
+        // and 0 / 1 / 1023 / 1025 / 0x8000 / 0xFFFF (CGFX: 0x10000) in the dimension fields of small files
+        // whose payload region holds only 64 bytes (one side stays 8, so nobody allocates much)
+        for kind in ["ctpk", "bch", "cgfx"] {
+            for &(w, h, fmt) in [(2048u32, 8u32, 7u32), (8, 4096, 12)].iter() {
+                let len = bits_per_pixel(fmt).unwrap() * (w * h) as usize / 8;
+                let texs = vec![Tex { name: "big".into(), w, h, fmt, payload: rng.bytes(len), palette: Vec::new() }];
+                let b = build(kind, &texs, 0, &mut rng, true);
+                next(&mut lines, format!("read {} {} ~", kind, hex(&b.file)));
+            }
+            let mut odd: Vec<u32> = vec![0, 1, 1023, 1025, 0x8000, 0xFFFF];
+            if kind == "cgfx" {
+                odd.push(0x1_0000);
+            }
+            for &d in odd.iter() {
+                for (w, h) in [(d, 8u32), (8u32, d)] {
+                    let fmt = *rng.pick(&[7u32, 0, 12, 13, 3]);
+                    let texs = vec![Tex { name: "odd".into(), w: 8, h: 8, fmt, payload: rng.bytes(64), palette: Vec::new() }];
+                    let mut t2 = texs.clone();
+                    t2[0].w = w;
+                    t2[0].h = h;
+                    // same layout, only the dimension fields differ from a well-formed 64-byte-payload file
+                    let mut r1 = rng.clone();
+                    let b = build(kind, &t2, 0, &mut r1, false);
+                    next(&mut lines, format!("read {} {} ~", kind, hex(&b.file)));
+                }
+            }
+        }
+    }
     // 2. BCH compatibility byte on both sides of the threshold (N2), one texture each
     for &compat in COMPATS.iter() {
         let texs = vec![gen_tex_3ds(&mut rng, false, false)];
